@@ -697,22 +697,32 @@ func TestVerif_C12_placeholders(t *testing.T) {
 	r.Param("shells", strings.Join(c12Shells, " "))
 	const batch = 400
 	unit := 0
+	var runners []*c12runner
 	for _, shp := range c12Shells {
-		sh := c12NewShell(shp)
-		q := &c12runner{r: r, sh: sh, tmpdir: tmpdir, budget: 400}
-		for _, wn := range c12WorldNames {
-			for _, T := range c12Templates[wn] {
-				for st := 0; st < len(texts); st += batch {
+		runners = append(runners, &c12runner{r: r, sh: c12NewShell(shp), tmpdir: tmpdir, budget: 400})
+	}
+	defer func() {
+		for _, q := range runners {
+			r.CountN("shell_processes", q.sh.runs)
+		}
+	}()
+	// shortest texts first: a time cap cuts off the longest texts, never a template or a shell
+	for st := 0; st < len(texts); st += batch {
+		en := st + batch
+		if en > len(texts) {
+			en = len(texts)
+		}
+		for _, q := range runners {
+			sh, shp := q.sh, q.sh.path
+			for _, wn := range c12WorldNames {
+				for _, T := range c12Templates[wn] {
 					unit++
 					if !r.Mine(unit) {
 						continue
 					}
 					if r.ExpiredNow() {
+						r.Param("time_cap_reached_at_text", strconv.Quote(c12Clip(texts[st])))
 						return
-					}
-					en := st + batch
-					if en > len(texts) {
-						en = len(texts)
 					}
 					exps := make([]*c12exp, 0, en-st)
 					size := 0
@@ -743,7 +753,7 @@ func TestVerif_C12_placeholders(t *testing.T) {
 							r.CountN("temporary_files", len(e.tmp))
 						}
 					}
-					if st == 0 && wn == "sel3" && T == "{+}" {
+					if st == 0 && wn == "sel3" && T == "{+}" && len(exps) > 5 {
 						e := exps[5]
 						r.Sample(map[string]any{"shell": shp, "world": wn, "template": T, "text": e.text, "expansion": e.script, "words": c12QuoteList(e.want)})
 					}
@@ -752,7 +762,6 @@ func TestVerif_C12_placeholders(t *testing.T) {
 				}
 			}
 		}
-		r.CountN("shell_processes", sh.runs)
 	}
 	if left := c12Leftovers(tmpdir); len(left) > 0 {
 		r.Violation("temporary-file-not-reported", map[string]any{"left_in_TMPDIR": len(left), "first": left[0]})
